@@ -337,6 +337,26 @@ ROUND3 = {
 for _k, _v in ROUND3.items():
     CLAIMED[_k]["text"] += _v
 
+# ---- round 4 addenda ----
+ROUND4 = {
+    "C01": " Round 4: part noise - which noise 'the observation noise' is (homoskedastic / fixed / fixed + learned / multitask x call-time noise= x size: DocNoise, NoiseOK, two broken transcriptions rejected), S and S* of every case built by hand; the history part takes a load_state_dict step.",
+    "C02": " Round 4: part zoo - noise structure of the likelihood x keywords forwarded through mll(output, target, *params, **kwargs) (DefNoise / CodeNoise: ZooNoiseOK) and every library class constructed with *_prior arguments, prior terms from the public properties by name with pairwise distinct values (ZooPriorsOK; three slip models rejected).",
+    "C04": " Round 4: call-time keywords handed through get_fantasy_model(X, y, **kw) with a keyword-consuming kernel on every batch triple.",
+    "C05": " Round 4: part rel - how x1 and x2 relate as tensor objects (same object, clone, views of one storage with other strides / offsets, transposed, expanded, non-contiguous: 14 relations, RelOK) for every kernel family, through direct calls and through lazy slicing.",
+    "C06": " Round 4: a zoo table in the spec (ZooDiagCover: every composite / multi-output structure has a member whose diagonal varies over the points) and an environment dimension (mode x sgpr_diagonal_correction x use_toeplitz: EnvCover) under which every relation is replayed.",
+    "C07": " Round 4: part noise (the noise a likelihood actually adds - marginal minus latent covariance, variance of p(y|f) - over likelihood family x switches x constraint class x raw-value class: NoiseAtLeastBound) and the computational path as a record of the growth machine (fast_pred_var x lazy/eager test covariance x CG/Cholesky x detach, small problems forced onto the large-problem branches).",
+    "C08": " Round 4: family nan - NaN policy x per-element patterns of missing targets (classes none / same / one_clean / different, every placement of the batch shape): NanSitesAligned, NanNoCrossTalk (non-interference between batch elements under fill), NanMaskIsUnion.",
+    "C10": " Round 4: MVNReads.tla - a state machine of observation histories on one distribution object (11 reads, 5 derivations) with invariant ReadsPure (every observation is a function of the constructed (mean, K); caller tensors, stored covariance and cached factor unchanged) over representations incl. every kind of root (lower / upper / symmetric / rotated square, wide, narrow) x variance classes around settings.min_variance; two what-if variants rejected.",
+    "C13": " Round 4: the constraint class of every likelihood parameter is a dimension of part params (ParamsThroughConstraintOK), and part condf checks log_prob of every conditional the library builds and its gradient over |f| = 1e-6..1e3 (CondNoFloorOK).",
+    "C14": " Round 4: part jit (jitter_val classes; every site uses the strategy's effective jitter: JitSame) and a LoadLegacy action in ehist (a checkpoint without updated_strategy holding an unwhitened q(u), converted once at the next call: LegacyOK in exact rationals).",
+    "C16": " Round 4: part datahist - set_train_data(targets=) and get_fantasy_model between predictions under any policy, with missing entries in old and new targets (ServedCurrent; two broken variants rejected).",
+    "C17": " Round 4: ConstraintPriors.tla HSpec - the history of a prior object (attribute assignment, load through the prior / through the owning module, deepcopy, dtype conversion) with HAgree: log_prob is the documented density at the hyper-parameters the object reports.",
+    "C18": " Round 4: a data-driven interpolation grid family, a save point after a history that moves data-dependent state, constraint bounds of the fresh construction differing in width.",
+    "C20": " Round 4: action LibOp (library code entering a block inside the user's blocks; re-entering one context object built at import is rejected: LibOpIsInvisible), a sweep of real library operations inside user blocks of every setting, and a pristine cross-setting pass (one fresh process per outer setting, both the default and a non-default value).",
+}
+for _k, _v in ROUND4.items():
+    CLAIMED[_k]["text"] += _v
+
 PENDING = "check not built yet (build in progress; see DESIGN.md section 11)"
 NOT_APPLICABLE = {}
 
